@@ -1,7 +1,9 @@
 package main
 
 import (
+	"encoding/json"
 	"fmt"
+	"reflect"
 	"runtime"
 	"unsafe"
 
@@ -558,6 +560,28 @@ func (x *World) Exec(i int, op Op) map[string]interface{} {
 			w.Resources().Remove(x.resIDs[op.R])
 			delete(x.resVals, op.R)
 		})
+	case "Dump":
+		line["dump"] = map[string]interface{}{"ok": false}
+		line["jsonOK"] = false
+		res = guard(func(r *result) {
+			d := w.DumpEntities()
+			line["dump"] = dumpRec(&d)
+			d2, ok := dumpRoundTrip(&d)
+			line["jsonOK"] = ok && reflect.DeepEqual(dumpRec(&d), dumpRec(d2))
+			x.lastDump = d2
+		})
+	case "Load":
+		// fault action (or legal on a fresh/reset world): load the last dump of this world
+		args["fresh"] = false
+		res = guard(func(r *result) {
+			d := x.lastDump
+			if d == nil {
+				dd := w.DumpEntities()
+				d = &dd
+			}
+			args["dump"] = dumpRec(d)
+			w.LoadEntities(d)
+		})
 	case "GC":
 		runtime.GC()
 	default:
@@ -622,4 +646,17 @@ func sameFilter(a, b ecs.Filter) (same bool) {
 		}
 	}()
 	return a == b
+}
+
+// dumpRoundTrip sends an entity dump through encoding/json.
+func dumpRoundTrip(d *ecs.EntityDump) (*ecs.EntityDump, bool) {
+	b, err := json.Marshal(d)
+	if err != nil {
+		return d, false
+	}
+	var d2 ecs.EntityDump
+	if err := json.Unmarshal(b, &d2); err != nil {
+		return d, false
+	}
+	return &d2, true
 }
